@@ -346,6 +346,8 @@ async fn batch_candidates(
                 break;
             }
             Some(candidates) = changes_rx.recv() => {
+                #[cfg(feature = "verif-hooks")]
+                crate::verif::event("match.recv", || format!("updates {id}"));
                 debug!(sub_id = %id, "updates got candidates: {candidates:?}");
                 for (table, pk_map) in  candidates {
                     let buffed = buf.entry(table.clone()).or_default();
@@ -416,6 +418,11 @@ async fn batch_candidates(
                 .as_mut()
                 .reset(Instant::now() + PROCESS_BUFFER_DEADLINE);
         }
+
+        #[cfg(feature = "verif-hooks")]
+        if buf_count == 0 {
+            crate::verif::event("match.idle", || format!("updates {id}"));
+        }
     }
 
     debug!(id = %id, "update loop is done");
@@ -461,6 +468,8 @@ where
 
         trace!(sub_id = %id, %db_version, "found {match_count} candidates");
 
+        #[cfg(feature = "verif-hooks")]
+        crate::verif::event("match.sent", || format!("{trait_type} {id}"));
         if let Err(e) = handle.changes_tx().try_send(candidates) {
             error!(sub_id = %id, "could not send change candidates to {trait_type} handler: {e}");
             match e {
@@ -556,6 +565,8 @@ where
 
         trace!(sub_id = %id, %db_version, "found {match_count} candidates");
 
+        #[cfg(feature = "verif-hooks")]
+        crate::verif::event("match.sent", || format!("{trait_type} {id}"));
         if let Err(e) = handle.changes_tx().try_send(candidates) {
             error!(sub_id = %id, "could not send change candidates to {trait_type} handler: {e}");
             match e {
